@@ -108,21 +108,14 @@ func (s *Service) Running() bool { return s.isRunning.Load() }
 // If the service is running or is finished, Start returns the
 // appropriate sentinel error.
 func (s *Service) Start(ctx context.Context) error {
-	if s.isFinished.Load() {
-		return ErrServiceReturned
-	}
-
-	if s.isRunning.Swap(true) {
-		return ErrServiceAlreadyStarted
-	}
-
+	// the sync.Once alone decides which call starts the service: the
+	// isRunning flag is only ever set by that call, before any of the
+	// service's goroutines exist, so that a concurrent or later Start
+	// can never make a finished service look running again.
 	started := false
 	s.doStart.Do(func() {
 		started = true
-		// isRunning is already true (set by the Swap above): storing
-		// it again here, after the goroutines have been launched,
-		// would overwrite the false stored by a Run that has already
-		// finished by then.
+		s.isRunning.Store(true)
 		defer s.isStarted.Store(true)
 		ec := &s.ec
 		ehSignal := make(chan struct{})
@@ -192,15 +185,14 @@ func (s *Service) Start(ctx context.Context) error {
 		}()
 	})
 
-	if !started {
-		// the service was started earlier and (since isRunning was
-		// false) has run to completion: it finished after the
-		// isFinished check at the top of this call.
-		s.isRunning.Store(false)
+	switch {
+	case started:
+		return nil
+	case s.isFinished.Load():
 		return ErrServiceReturned
+	default:
+		return ErrServiceAlreadyStarted
 	}
-
-	return nil
 }
 
 // Close forceably shuts down the service, causing the background
